@@ -17,7 +17,7 @@ import (
 
 func init() { Registry["C09"] = runC09 }
 
-const explanationC09 = "Decides structural necessary conditions of C09 on the generator packages (codegen/**, expr, eval, dsl, http/codegen/**, grpc/codegen/**, cmd/goa): (R09.1) no order-sensitive iteration over a map — every range-over-map statement is classified (commutative, collected-then-sorted, single-entry, key pinned to one constant) and an order-sensitive site must be in the reviewed table with exactly the reviewed reasons; (R09.2) every sort.Slice comparator indexes the slice it sorts; (R09.3) no ambient nondeterminism (time, package-level math/rand, crypto/rand, pid, hostname, uuid) is called from generator packages and the example randomizer is seeded from its seed parameter only, which is the API name; (R09.4) File.Render never opens an existing SkipExist file (the Stat path is the path it would open, the open flags are create|append|write-only without truncation) and every codegen.File built by a function reachable from generator.Example sets SkipExist; (R09.5) the generated main removes the gen sub-directories before generator.Generate runs and cleanupDirs returns every sub-directory; (R09.6) Generate sorts the list of written files; (R09.7) errors of the write pipeline are tested with the right polarity or returned; (R09.8) a temporary file created in the output tree is removed on every exit after its creation. NOT decided: byte equality across processes (the rules remove the known sources of variation; they cannot prove there is no other), behaviour of go/format and imports.Process."
+const explanationC09 = "Decides structural necessary conditions of C09 on the generator packages (codegen/**, expr, eval, dsl, http/codegen/**, grpc/codegen/**, cmd/goa): (R09.1) no order-sensitive iteration over a map — every range-over-map statement is classified (commutative, collected-then-sorted, single-entry, key pinned to one constant) and an order-sensitive site must be in the reviewed table with exactly the reviewed reasons; (R09.2) every sort.Slice comparator indexes the slice it sorts; (R09.3) no ambient nondeterminism (time, package-level math/rand, crypto/rand, pid, hostname, uuid) is called from generator packages and the example randomizer is seeded from its seed parameter only, which is the API name; (R09.4) File.Render never opens an existing SkipExist file (the Stat path is the path it would open, the open flags are create|append|write-only without truncation) and every codegen.File built by a function reachable from generator.Example sets SkipExist; (R09.5) the generated main removes the gen sub-directories before generator.Generate runs and cleanupDirs returns every sub-directory; (R09.6) Generate sorts the list of written files; (R09.7) errors of the write pipeline are tested with the right polarity or returned; (R09.8) a temporary file created in the output tree is removed on every exit after its creation. (R09.9) the type switches that turn primitive values into text (JSON example keys, server variables) handle the same set of basic types. NOT decided: byte equality across processes (the rules remove the known sources of variation; they cannot prove there is no other), behaviour of go/format and imports.Process."
 
 var genDirs = []string{"codegen", "codegen/cli", "codegen/example", "codegen/generator", "codegen/service", "expr", "eval", "dsl",
 	"http/codegen", "http/codegen/openapi", "http/codegen/openapi/v2", "http/codegen/openapi/v3", "grpc/codegen", "cmd/goa"}
